@@ -97,17 +97,16 @@ def check_pair(ctx, su: Setup, a: int, b: int):
     if rets[0].state.path:
         ctx.unk("C06.2", f"{tag}: result depends on an undecided condition", where, describe_path(rets[0].state))
         return
-    expect = const_call(interp, INFO, "get_num_children", [a, b])
+    # the statement's own rule: 12 faces, then 5 segments, then 4 per level
+    expect = 1
+    for lvl in range(a, b):
+        expect *= su.n if lvl == -1 else (5 if lvl == 0 else 4)
     total = lst.length()
-    if isinstance(expect, Raises):
-        ctx.bad("C06.3", f"{tag}: get_num_children({a}, {b}) {expect}", where, "the child-count rule raises for a valid resolution pair")
-    elif expect is None:
-        ctx.unk("C06.3", f"{tag}: count vs get_num_children({a},{b})", where, "get_num_children not determined")
-    elif total == expect:
-        ctx.ok("C06.3", f"{tag}: {total} children == get_num_children", where,
+    if total == expect:
+        ctx.ok("C06.3", f"{tag}: {total} children (12, 5, then 4 per level)", where,
                f"loop trip counts {[[cnt for _, cnt in s.binders] for s in lst.segs]}")
     else:
-        ctx.bad("C06.3", f"{tag}: lists {total} children, get_num_children({a}, {b}) = {expect}", where,
+        ctx.bad("C06.3", f"{tag}: lists {total} children, the hierarchy has {expect} (12, 5, then 4 per level)", where,
                 f"loop trip counts {[[cnt for _, cnt in s.binders] for s in lst.segs]}")
     if a == b:
         ok = len(lst.segs) == 1 and not lst.segs[0].binders and lst.segs[0].elem == c
